@@ -35,6 +35,15 @@ impl ToNat for Uint64 { open spec fn to_nat(self) -> nat { self@ } }
 impl ToNat for Uint128 { open spec fn to_nat(self) -> nat { self@ } }
 impl ToNat for Uint256 { open spec fn to_nat(self) -> nat { self@ } }
 
+/// cosmwasm-std `Fraction`: a (numerator, denominator) pair of integers, or a Decimal (atomics / 10^18)
+pub trait Frac: Sized { spec fn num(self) -> nat; spec fn den(self) -> nat; }
+impl<A: ToNat, B: ToNat> Frac for (A, B) {
+    open spec fn num(self) -> nat { self.0.to_nat() }
+    open spec fn den(self) -> nat { self.1.to_nat() }
+}
+impl Frac for Decimal { open spec fn num(self) -> nat { self@ } open spec fn den(self) -> nat { DEC } }
+impl Frac for Decimal256 { open spec fn num(self) -> nat { self@ } open spec fn den(self) -> nat { DEC } }
+
 #[derive(Copy)]
 pub struct Uint64 { pub v: u64 }
 #[derive(Copy)]
@@ -185,34 +194,34 @@ impl $t {
     { unimplemented!() }
     /// `checked_mul_floor((n, d))` = floor(self * n / d)
     #[verifier::external_body]
-    pub fn checked_mul_floor<A: ToNat, B: ToNat>(self, frac: (A, B)) -> (r: Result<$t, CheckedMultiplyFractionError>)
+    pub fn checked_mul_floor<F: Frac>(self, frac: F) -> (r: Result<$t, CheckedMultiplyFractionError>)
         ensures match r {
-            Ok(x) => frac.1.to_nat() != 0 && x@ == (self@ * frac.0.to_nat()) / frac.1.to_nat(),
-            Err(_) => frac.1.to_nat() == 0 || (self@ * frac.0.to_nat()) / frac.1.to_nat() > $max,
+            Ok(x) => frac.den() != 0 && x@ == (self@ * frac.num()) / frac.den(),
+            Err(_) => frac.den() == 0 || (self@ * frac.num()) / frac.den() > $max,
         }
     { unimplemented!() }
     /// `checked_div_floor((n, d))` = floor(self * d / n)  (division by the fraction n/d)
     #[verifier::external_body]
-    pub fn checked_div_floor<A: ToNat, B: ToNat>(self, frac: (A, B)) -> (r: Result<$t, CheckedMultiplyFractionError>)
+    pub fn checked_div_floor<F: Frac>(self, frac: F) -> (r: Result<$t, CheckedMultiplyFractionError>)
         ensures match r {
-            Ok(x) => frac.0.to_nat() != 0 && x@ == (self@ * frac.1.to_nat()) / frac.0.to_nat(),
-            Err(_) => frac.0.to_nat() == 0 || (self@ * frac.1.to_nat()) / frac.0.to_nat() > $max,
+            Ok(x) => frac.num() != 0 && x@ == (self@ * frac.den()) / frac.num(),
+            Err(_) => frac.num() == 0 || (self@ * frac.den()) / frac.num() > $max,
         }
     { unimplemented!() }
     /// `checked_mul_ceil((n, d))` = ceil(self * n / d)
     #[verifier::external_body]
-    pub fn checked_mul_ceil<A: ToNat, B: ToNat>(self, frac: (A, B)) -> (r: Result<$t, CheckedMultiplyFractionError>)
+    pub fn checked_mul_ceil<F: Frac>(self, frac: F) -> (r: Result<$t, CheckedMultiplyFractionError>)
         ensures match r {
-            Ok(x) => frac.1.to_nat() != 0 && x@ == ((self@ * frac.0.to_nat() + frac.1.to_nat() - 1) as nat) / frac.1.to_nat(),
-            Err(_) => frac.1.to_nat() == 0 || ((self@ * frac.0.to_nat() + frac.1.to_nat() - 1) as nat) / frac.1.to_nat() > $max,
+            Ok(x) => frac.den() != 0 && x@ == ((self@ * frac.num() + frac.den() - 1) as nat) / frac.den(),
+            Err(_) => frac.den() == 0 || ((self@ * frac.num() + frac.den() - 1) as nat) / frac.den() > $max,
         }
     { unimplemented!() }
     /// `checked_div_ceil((n, d))` = ceil(self * d / n)
     #[verifier::external_body]
-    pub fn checked_div_ceil<A: ToNat, B: ToNat>(self, frac: (A, B)) -> (r: Result<$t, CheckedMultiplyFractionError>)
+    pub fn checked_div_ceil<F: Frac>(self, frac: F) -> (r: Result<$t, CheckedMultiplyFractionError>)
         ensures match r {
-            Ok(x) => frac.0.to_nat() != 0 && x@ == ((self@ * frac.1.to_nat() + frac.0.to_nat() - 1) as nat) / frac.0.to_nat(),
-            Err(_) => frac.0.to_nat() == 0 || ((self@ * frac.1.to_nat() + frac.0.to_nat() - 1) as nat) / frac.0.to_nat() > $max,
+            Ok(x) => frac.num() != 0 && x@ == ((self@ * frac.den() + frac.num() - 1) as nat) / frac.num(),
+            Err(_) => frac.num() == 0 || ((self@ * frac.den() + frac.num() - 1) as nat) / frac.num() > $max,
         }
     { unimplemented!() }
     /// integer square root: r*r <= self < (r+1)*(r+1)
